@@ -55,4 +55,4 @@ let run_all (p : M.program) (o : M.output) : string =
       "C05i:" ^ (if dom then b2s (M.chk_C05 false k fuel p o) else "-");
       (* the same with data: register machine on the stack vs source semantics, under the fingerprint
          interpretation (constant-size values) *)
-      "C05v:" ^ (if dom && c05v_salts > 0 then b2s (M.chk_C05h salts_list (nat_of_int c05v_nflat) (nat_of_int c05v_nsrc) p o) else "-") ]
+      "C05v:" ^ (if dom && c05v_salts > 0 then b2s (M.chk_C05hs salts_list (nat_of_int c05v_nflat) (nat_of_int c05v_nsrc) p o) else "-") ]
